@@ -14,7 +14,7 @@ MUTATORS = ['enable_fit', 'disable_fit', 'set_mode', 'set_boundary',
             'set_factor_boundary', 'set_prior', 'enable_derived',
             'disable_derived']
 
-REAL_SHARE = 0.0
+REAL_SHARE = 0.12
 _warm = False
 
 
@@ -85,7 +85,8 @@ def gen_config(rng, kind='toy'):
 
 
 def gen_ops(rng, cfg, nops):
-    names = [p['name'] for p in cfg['mparams'] + cfg['oparams']]
+    names = [p['name'] for p in cfg['mparams'] + cfg['oparams']
+             if p.get('touch', True)]
     dnames = [d['name'] for d in cfg['mderived'] + cfg['oderived']]
     ops = []
     # swarm: per-run op weights
@@ -260,11 +261,13 @@ def execute(case, keep_text=False):
     ops = case['ops']
     out = Outcome()
     log = EventLog(keep_text)
+    if cfg['kind'] == 'real':
+        from checks import c07_real
+        c07_real.install(cfg)
     model, obs, opt = _build(cfg)
     ref = Ref(cfg)
     if cfg['kind'] == 'real':
         out.bump('probes', 'real_model_run')
-        from checks import c07_real
         c07_real.sync_ref_from_model(ref, model, obs)
     sig = []
     dirty_since_compile = False
@@ -414,6 +417,7 @@ def execute(case, keep_text=False):
         check_values(step, 'writeback', rel=1e-12)
         for n in ref.order:      # re-synchronise exactly
             _set(ref, n, model, obs, ref.values[n])
+            ref.values[n] = _get(ref, n, model, obs)
 
     try:
         for step, op in enumerate(ops):
@@ -493,7 +497,12 @@ def execute(case, keep_text=False):
                 log.add('opt', 'update', vec)
             elif k == 'direct_write':
                 _set(ref, op[1], model, obs, op[2])
-                ref.values[op[1]] = op[2]
+                got = _get(ref, op[1], model, obs)
+                if not _close(got, op[2], 1e-12):
+                    viol('value-changed', 'direct_write', '%s set to %r reads '
+                         'back %r' % (op[1], op[2], got), step)
+                    raise Stop()
+                ref.values[op[1]] = got
                 direct_since_compile = True
             elif k == 'misuse':
                 what = op[1]
